@@ -120,6 +120,7 @@ def run(ctx):
     demos = e.binding_demo(res) if not ctx.violations else []
 
     cov = cc.summarize(res)
+    cov["preparation_copies_that_did_not_return"] = {"count": len(e.prior_hangs), "first": e.prior_hangs[:3]}
     cov.update({
         "states": states, "transitions": trans, "traces_validated_against_impl": acc, "rejected": len(rej),
         "samples": cc.samples_of(res), "evaluations": len(res), "distinct_nontrivial": cov.pop("distinct"),
